@@ -1,6 +1,113 @@
-From Coq Require Import QArith.
-From Asynkit Require Import Base.Prelude Queue.PosPQ Sched.Model.
-(* placeholder: the C11 theorems land in Sched/InheritProofs.v *)
-Theorem C11_eprio_fuel0 : forall s t, eprio 0 s t = match tprio (gett s t) with Some p => p | None => 0%Q end.
-Proof. reflexivity. Qed.
-Print Assumptions C11_eprio_fuel0.
+(* C11 - Priority inheritance bounds priority inversion.
+   Statements over the executable scheduler model (Sched/Model.v).  Vocabulary
+   (Sched/InheritEprio.v):
+     own s t          = the task's own priority() (0 for a plain task);
+     waiters_of s t   = the tasks queued (lock_waiter_tasks: waiter entries mapped through
+                        the lock's future->task table) on the locks in t's _holding_locks;
+     waits_on s w t   = w is queued on a lock held by t;  waits_tr = its transitive closure;
+     wprio s w        = what waiter w contributes: effective_priority s w for a PriorityTask,
+                        0 for a plain task;
+     min_of x vals    = x is an element of vals and x <= every element of vals;
+     ranked s         = the wait-for graph is acyclic with chains no longer than the
+                        recursion budget of effective_priority():
+                        exists rank, (waits_on s w t -> rank w < rank t) /\ rank t <= efuel s.
+   [effective_priority s t] is the model of PriorityTask.effective_priority(): the
+   fuel-bounded recursion [eprio (efuel s) s t]. *)
+From Coq Require Import QArith Sorting.Permutation.
+From Asynkit Require Import Base.Prelude Queue.PQ Queue.PosPQ Queue.Exec Sched.Model Sched.QFacts
+  Sched.LockInv Sched.LockThms Sched.InheritEprio Sched.InheritHandover Sched.InheritKeys
+  Sched.InheritFalls Sched.InheritExamples Sched.InheritThms.
+Open Scope nat_scope.
+
+(* One unfolding of the recursion, in every state (no hypothesis): the result is a least
+   element of the task's own priority and the contributions of the tasks waiting for locks
+   it holds, computed with one unit of fuel less. *)
+Theorem C11_eprio_unfold :
+  forall fuel s t,
+    min_of (eprio (S fuel) s t)
+           (own s t :: map (fun w => match tprio (gett s w) with
+                                     | Some _ => eprio fuel s w | None => 0%Q end)
+                           (waiters_of s t)).
+Proof. exact eprio_step. Qed.
+Print Assumptions C11_eprio_unfold.
+
+(* On an acyclic graph the budget suffices: any larger fuel gives the same value. *)
+Theorem C11_fuel_independent :
+  forall s fuel t, ranked s -> efuel s <= fuel -> eprio fuel s t = effective_priority s t.
+Proof. exact C11_fuel_independent_thm. Qed.
+Print Assumptions C11_fuel_independent.
+
+(* ... and effective_priority satisfies the fixpoint equation
+   eprio t = min (own t) (min over w waiting on locks held by t of wprio w). *)
+Theorem C11_eprio_fixpoint :
+  forall s t, ranked s ->
+    min_of (effective_priority s t) (own s t :: map (wprio s) (waiters_of s t)).
+Proof. exact C11_fixpoint_thm. Qed.
+Print Assumptions C11_eprio_fixpoint.
+
+(* Closed form, in every reachable state with an acyclic wait-for graph: the effective
+   priority of t is the LEAST own priority among t and all tasks transitively waiting for
+   locks held by t - it is below each of them, and it is attained by one of them. *)
+Theorem C11_eprio_closed_form :
+  forall s t, reachable s -> ranked s ->
+    (effective_priority s t <= own s t)%Q /\
+    (forall w, waits_tr s w t -> (effective_priority s t <= own s w)%Q) /\
+    (exists u, (u = t \/ waits_tr s u t) /\ effective_priority s t = own s u).
+Proof. exact C11_closed_form_reach. Qed.
+Print Assumptions C11_eprio_closed_form.
+
+(* While w is queued on lock l owned by the PriorityTask h, h is at least as urgent as w,
+   and so is every task x up the holder chain (h waits for a lock of x, transitively). *)
+Theorem C11_holder_at_least_as_urgent :
+  forall s l w h, reachable s -> ranked s ->
+    In w (lock_waiter_tasks (getl s l)) -> lowner (getl s l) = Some h ->
+    is_prio_task s h = true ->
+    (effective_priority s h <= effective_priority s w)%Q /\
+    (forall x, waits_tr s h x -> (effective_priority s x <= effective_priority s w)%Q).
+Proof. exact C11_holder_reach. Qed.
+Print Assumptions C11_holder_at_least_as_urgent.
+
+(* It falls back when the holder releases: after a successful release() of l by the
+   PriorityTask t the graph is still acyclic, l has left t's held locks, and t's effective
+   priority is least among its own priority and the waiters of the locks it still holds. *)
+Theorem C11_falls_back_release :
+  forall s t l, ranked s -> llocked (getl s l) = true -> lowner (getl s l) = Some t ->
+    is_prio_task s t = true -> t < length (tasks s) ->
+    let s' := fst (release_p s t l) in
+    ranked s' /\
+    tholding (gett s' t) = filter (fun x => negb (Nat.eqb x l)) (tholding (gett s t)) /\
+    min_of (effective_priority s' t)
+           (own s t :: map (wprio s')
+                           (flat_map (fun l' => lock_waiter_tasks (getl s l'))
+                                     (filter (fun x => negb (Nat.eqb x l)) (tholding (gett s t))))).
+Proof. exact falls_back_release. Qed.
+Print Assumptions C11_falls_back_release.
+
+(* ... and when a waiter stops waiting (the `finally` of acquire(): _waiters.remove(entry),
+   [leave_lk] = the lock with the entry of future f and its table row removed): the graph
+   stays acyclic, the waiter list of l loses exactly the task of f, the other locks are
+   untouched, and every effective priority is given by the fixpoint equation over the
+   remaining waiters. *)
+Theorem C11_falls_back_waiter_leaves :
+  forall s l f p q', ranked s -> qwf (lpq (getl s l)) ->
+    pq_remove HQ (lpq (getl s l)) (Z.of_nat f) = Some (p, q') ->
+    let s' := setl s l (leave_lk (getl s l) f q') in
+    ranked s' /\
+    Permutation (lock_waiter_tasks (getl s l))
+                (task_of_fut (getl s l) f :: lock_waiter_tasks (getl s' l)) /\
+    (forall l', l' <> l -> getl s' l' = getl s l') /\
+    (forall h, min_of (effective_priority s' h) (own s h :: map (wprio s') (waiters_of s' h))).
+Proof. exact falls_back_leave. Qed.
+Print Assumptions C11_falls_back_waiter_leaves.
+
+(* Non-vacuity: a reachable state (list loop, two PriorityLocks; H = task 0 holds lock 0;
+   W1 = task 1 holds lock 1 and is queued on lock 0 with W2 = task 2; the late X = task 3,
+   priority -5, is queued on lock 1) whose graph is acyclic; H and W1 have inherited -5. *)
+Theorem C11_example :
+  reachable istA /\ ranked istA /\
+  map (own istA) [0; 1; 2; 3] = [0%Q; 5%Q; 3%Q; (-5)%Q] /\
+  map (fun t => Qred (effective_priority istA t)) [0; 1; 2; 3] = [(-5)%Q; (-5)%Q; 3%Q; (-5)%Q] /\
+  (* after H's release its effective priority is its own again *)
+  reachable istR /\ Qred (effective_priority istR 0) = 0%Q.
+Proof. exact C11_example_thm. Qed.
+Print Assumptions C11_example.
